@@ -63,6 +63,18 @@ def r1_static(repo: Repo, rep):
     if not hits or not misses:
         rep.undecided(R, fi.site(), fi.fq, "a hit path returning self.created_points and a miss path", f"{len(hits)} hit / {len(misses)} miss paths")
         return
+    # ---- the hit / miss decision depends on nothing but "points exist" and the use counter
+    for p in hits + misses:
+        foreign = []
+        for g, pol, kind in _flat_guards(p):
+            if kind != "if":
+                continue
+            t = dump(g)
+            if t in ("self.created_points", "self.created_points is None") or ("counter" in t and "resample_interval" in t):
+                continue
+            foreign.append(t[:70])
+        rep.check(R, not foreign, fi.site(p.ret_node), fi.fq, "whether the cached set is reused depends only on its existence and on the number of uses",
+                  f"also depends on {foreign}", f"foreign reuse condition {foreign}")
     # ---- hit paths: guard created ∧ (c + a ⋄ I), update c+1
     shape = None
     for p in hits:
